@@ -12,10 +12,14 @@ import sys
 import time
 
 VERIF = os.path.dirname(os.path.dirname(os.path.abspath(__file__)))
-REPO = os.environ.get("VERIF_REPO", "/repo")
-BUILD = os.path.join(VERIF, ".build")
-EVIDENCE = os.path.join(VERIF, "evidence")
-REPLAY = os.path.join(VERIF, "replay")
+REPO = os.path.realpath(os.environ.get("VERIF_REPO", "/repo"))
+ALT = REPO != "/repo"   # self-test mode: the checks run against a (mutated) copy of the repository
+# A non-default repository gets its own build area (own target dirs, own pkgs symlink, own harness copy), so
+# that mutant runs never disturb the artifacts built from /repo.
+BUILD = os.path.join(VERIF, ".build") if not ALT else os.path.join(
+    VERIF, ".build", "alt-" + hashlib.sha256(REPO.encode()).hexdigest()[:10])
+EVIDENCE = os.path.join(VERIF, "evidence") if not ALT else os.path.join(BUILD, "evidence")
+REPLAY = os.path.join(VERIF, "replay") if not ALT else os.path.join(BUILD, "replay")
 KNOWN = os.path.join(VERIF, "known_findings.json")
 NCPU = int(os.environ.get("VERIF_JOBS", str(os.cpu_count() or 4)))
 
